@@ -43,6 +43,9 @@ pub enum Packing {
     /// PDUs without any update ride along: an empty short-form fast-path PDU (00 02) after the first bitmap PDU in
     /// the same record, an empty long-form one (00 80 03) in front of the third
     EmptyPdusInside,
+    /// one PDU per record, but the second bitmap PDU is 20 kB long (two-byte length form with bit 14 set; it spans two
+    /// TLS records)
+    BigSecondPdu,
 }
 
 #[derive(Clone, Copy, Debug, Serialize, PartialEq)]
@@ -74,7 +77,7 @@ pub struct Script {
 
 pub fn scripts() -> Vec<Script> {
     let mut v = vec![];
-    for packing in [Packing::OnePerRecord, Packing::TwoThenOne, Packing::ThreeInOne, Packing::PduAcrossTwoRecords, Packing::RecordAcrossTwoSegments, Packing::OnePerRecordWithPauses, Packing::EmptyPdusInside] {
+    for packing in [Packing::OnePerRecord, Packing::TwoThenOne, Packing::ThreeInOne, Packing::PduAcrossTwoRecords, Packing::RecordAcrossTwoSegments, Packing::OnePerRecordWithPauses, Packing::EmptyPdusInside, Packing::BigSecondPdu] {
         v.push(Script { packing, end: End::None, end_after: 3, preloaded: false, nla: false, end_in_last_record: false });
         for end in [End::DisconnectUltimatum, End::CloseNotify, End::AbruptClose, End::UndecodableRdpKind, End::UndecodableIoKind, End::UndecodableEmptyFrame] {
             for end_after in 0..=3 {
@@ -119,6 +122,11 @@ enum EnvAction {
 fn bitmap_pdu(seq: u16) -> Vec<u8> {
     let r = Rect { left: seq, top: 0, right: seq + 1, bottom: 0, width: 2, height: 1, bpp: 16, flags: 0, data: vec![seq as u8, 1, 2, 3] };
     framing::fastpath(0, &fastpath::updates_payload(&[Update::Bitmap(vec![r])]), false)
+}
+
+fn big_bitmap_pdu(seq: u16) -> Vec<u8> {
+    let r = Rect { left: seq, top: 0, right: seq + 99, bottom: 99, width: 100, height: 100, bpp: 16, flags: 0, data: (0..20000u32).map(|i| (i * 7 + seq as u32) as u8).collect() };
+    framing::fastpath(0, &fastpath::updates_payload(&[Update::Bitmap(vec![r])]), true)
 }
 
 // ------------------------------------------------------------------ per-execution context
@@ -531,7 +539,7 @@ fn build_actions(script: &Script, peer: &mut TlsPeer, st: &mut State) -> Vec<Env
         pdus_done = 1;
         st.record_ends.push((0, 1));
     }
-    let mut pdus: Vec<Vec<u8>> = (first..script.end_after as u16).map(bitmap_pdu).collect();
+    let mut pdus: Vec<Vec<u8>> = (first..script.end_after as u16).map(|seq| if script.packing == Packing::BigSecondPdu && seq == 1 { big_bitmap_pdu(seq) } else { bitmap_pdu(seq) }).collect();
     let end_plain: Option<Vec<u8>> = match script.end {
         End::DisconnectUltimatum => Some(framing::tpkt(&framing::x224_dt(&mcs::disconnect_provider_ultimatum(3)))),
         End::UndecodableRdpKind => Some(framing::tpkt(&framing::x224_dt(&[0x00, 0x00, 0x00]))),
@@ -559,7 +567,7 @@ fn build_actions(script: &Script, peer: &mut TlsPeer, st: &mut State) -> Vec<Env
         }
     };
     match script.packing {
-        Packing::OnePerRecord | Packing::OnePerRecordWithPauses | Packing::RecordAcrossTwoSegments => {
+        Packing::OnePerRecord | Packing::OnePerRecordWithPauses | Packing::RecordAcrossTwoSegments | Packing::BigSecondPdu => {
             for p in &pdus {
                 push_record(p, 1, script.packing == Packing::RecordAcrossTwoSegments, &mut actions, st, &mut raw_off, &mut pdus_done);
                 // one pause (voluntary yield of the sender) after the first record
